@@ -1,6 +1,7 @@
 package main
 
 import (
+	"errors"
 	"bytes"
 	"encoding/json"
 	"fmt"
@@ -485,7 +486,26 @@ type countOut struct {
 
 func (c *countOut) Write(p []byte) (int, error) { c.calls++; return c.Buffer.Write(p) }
 
+var faultSeq uint64
+
+// failOut is a destination that fails: 0 = error at once, 1 = short write without error, 2 = half the bytes then an error.
+type failOut struct{ mode int }
+
+func (f *failOut) Write(p []byte) (int, error) {
+	switch f.mode {
+	case 0:
+		return 0, errors.New("out failed")
+	case 1:
+		return len(p) / 2, nil
+	}
+	return len(p) / 2, errors.New("out failed midway")
+}
+
 func checkConsole(r *seq.Run, c consoleCfg, line []byte, root *jsonstrict.Node, p seqx.Program) {
+	// an earlier Write, through another ConsoleWriter, whose destination fails (alternately an error, a short
+	// write, an error after half of the bytes): whatever that leaves in pooled buffers must not show up here
+	faultSeq++
+	zerolog.ConsoleWriter{Out: &failOut{mode: int(faultSeq % 3)}, NoColor: true}.Write(line)
 	var b1, b2 bytes.Buffer
 	w1 := c.writer(&b1)
 	n1, err1 := w1.Write(line)
